@@ -43,7 +43,7 @@ def params(rng, strategy, n, exact=True):
         if exact:
             c["exp"] = R(rng.choice([1, 2, 3]))
         else:
-            c["exp_f"] = rng.choice([rng.uniform(0.14, 4.0), rng.uniform(0.01, 0.14), rng.uniform(0.14, 1.0)])
+            c["exp_f"] = rng.choice([rng.uniform(0.14, 4.0), rng.uniform(0.01, 0.14), rng.uniform(0.14, 1.0), 1.0, 1.5, 3.0])
             c["exp"] = R(Fraction(c["exp_f"]).limit_denominator(1000))     # informative only (exact = False)
     if strategy in ("LinearAdaptive", "ExpAdaptive"):
         if exact:
@@ -63,12 +63,14 @@ def random_rfa_case(rng, exact=True, strategies=ALL, mmax=6, nmax=8, vals=(-2, 0
     c["container"] = rng.choice(["array", "array", "list", "int", "series"])
     if exact and rng.random() < 0.12:          # every optional parameter left at its documented default
         c.update({"a": -1, "alpha": R(1), "beta": R(Fraction(1, 2)), "exp": R(2), "smooth": 1, "defaults": True})
+    if exact and s != "CubicSpline" and c["container"] in ("array", "list") and rng.random() < 0.12:
+        c["yoff"] = [rng.choice([-1, 1]), rng.choice([17, 20])]       # values on a level far above their jumps (exact translation)
     if rng.random() < 0.15:                    # the factor handed over as a NumPy integer (a float is not a documented type for n)
         c["n_kind"] = rng.choice(["np", "np32"])
     return c
 
 
-CASE_KEYS = ("fn", "strategy", "x", "y", "n", "a", "alpha", "beta", "exp", "exp_f", "smooth", "smooth_f", "exact", "container", "n_f", "n_kind", "defaults")
+CASE_KEYS = ("fn", "strategy", "x", "y", "n", "a", "alpha", "beta", "exp", "exp_f", "smooth", "smooth_f", "exact", "container", "n_f", "n_kind", "defaults", "yoff")
 
 
 def case_of_event(ev):
